@@ -22,7 +22,8 @@ CONSTANTS Levels,            \* runtime levels explored, e.g. {0, 1}
 VARIABLES level, last        \* last = id of the row called last (0 = none yet); a run walks the table in order
 vars == <<level, last>>
 
-FailClasses == {"FALSE", "NULL", "MINUS1", "CMP_LESS", "CMP_GREATER", "NAN", "ZERO", "TYPENAME", "VOID"}
+FailClasses == {"FALSE", "NULL", "MINUS1", "CMP_LESS", "CMP_GREATER", "NAN", "ZERO", "TYPENAME", "VOID",
+                "ANY"}     \* ANY: object argument of a method that documents no failure value (value and allocation not judged)
 GuardKinds  == {"ASSERT_RVAL", "REQUIRE_RVAL", "ASSERT", "REQUIRE", "SPIF_OBJ_COMP_CHECK_NULL", "SPIF_COMP_CHECK_NULL", "none"}
 RowIds  == 1 .. Len(Rows)
 Claimed == {i \in RowIds : Rows[i].claimed}
